@@ -523,7 +523,7 @@ CHECKS = {
             "(a) toy aggregate whose state is the append-only list of "
             "unique ids on the bare AggregateStore: 2-8 OS threads x 3-10 "
             "operations (append / rejected / no-op / pre-save-failure / "
-            "read / snapshot) on 1-3 entities (the first entity is CREATED "
+            "read / snapshot / history listing) on 1-3 entities (the first entity is CREATED "
             "by all threads at once: exactly one may be told it created "
             "it), through one or two store "
             "instances over the same storage, disk and memory back-ends, "
@@ -782,7 +782,8 @@ CHECKS = {
             "once, configured-and-held ROAs are validated and nothing else, "
             "the child's entitlement is one of the written values; on the "
             "disk back-end a second instance opened on the directory after "
-            "the round shows the same published files and configured ROAs "
+            "the round shows the same published files, configured ROAs and "
+            "parent/repository/child status "
             "as the running one did (nothing acknowledged is lost over a "
             "restart). "
             "evaluations = final-state comparisons per CA and round; "
@@ -846,6 +847,10 @@ CHECKS = {
             "lists inside stored RRDP deltas (hash-map order in apply, not "
             "shown by any API view; --strict-delta-order 1 reports it); API "
             "lists equal up to element order count as equal",
+            "next to the JSON of each state the sorted lines of its pretty "
+            "Debug output are compared (time stamps blanked), so that fields "
+            "left out of the stored form are compared as well; SignerInfo "
+            "has no Debug implementation and is compared as JSON only",
         ],
         "level_text": (
             "Runtime monitoring: the real stores replay the real audit logs "
@@ -982,7 +987,9 @@ CHECKS = {
             "the failing write happens (odd cuts: cache brought up to date "
             "first). "
             "Oracles: every entity/status/publisher loads; no acknowledged "
-            "version lost; after bounded pumping and explicit syncs the tree "
+            "version lost; the task queue alone (no synchronisation asked "
+            "for, 400 virtual seconds) brings the repository in line with "
+            "what was committed; after bounded pumping and explicit syncs the tree "
             "is RP-valid and configuration = published objects; after "
             "re-submitting the request and full catch-up the normalised "
             "observable state (configuration, children, parents, class "
